@@ -71,6 +71,9 @@ pub fn creds(full: bool) -> Vec<(&'static str, &'static str)> {
             ("0", "00"),
             ("GM;", "'--"),
             ("zzzzzzzzzzzzzzzz", "ZZZZZZZZZZZZZZZZ"),
+            // letters right after / before the characters that border the letter ranges in ASCII
+            ("pass|zone", "a{z}~z`a"),
+            ("@a[z", "`A{Z^a_z"),
         ]);
     }
     v
@@ -242,6 +245,24 @@ pub struct LoginInput<'a> {
     pub b: [u8; 32],
     pub a: [u8; 32],
     pub storage_roundtrip: bool,
+}
+
+/// The first SRP computation of the process is an UNUSUAL one: a client challenge towards a server that announces
+/// g = 2, N' = 3. Anything the library memoises process-wide on first use (a parsed prime, a pre-computed hash) is then
+/// seeded from this group, and the ordinary logins that follow show it. (The opposite order - ordinary first, unusual
+/// later - is what the login sequences of C01/C03 cover.)
+pub fn unusual_first_use() {
+    static ONCE: std::sync::Once = std::sync::Once::new();
+    ONCE.call_once(|| {
+        let mut n3 = [0u8; 32];
+        n3[0] = 3;
+        if let Ok(bk) = PublicKey::from_le_bytes(le32_from_u64(1)) {
+            let _ = with_script(&le32_from_u64(5), || {
+                let c = wow_srp::client::SrpClientChallenge::new(ns("first"), ns("use"), 2, n3, bk, [9u8; 32]);
+                *c.client_proof()
+            });
+        }
+    });
 }
 
 /// Full login through the public typestate API under a scripted RNG:
